@@ -54,10 +54,13 @@ type c12Script struct {
 	optPos  int
 	extraAr int
 	rcode   uint16
+	// nearLimit > 0: the answer is padded so that its compressed form (without any OPT) is nearLimit - delta octets
+	// long, i.e. the client's size limit leaves room for the OPT only just, or not at all
+	nearLimit, delta int
 }
 
 func TestVfC12Edns(t *testing.T) {
-	st := vfkit.Stats("TestVfC12Edns", "cases of (ECS on/off, client address via UDP source 127.a.b.c / HTTP client-address header with v4, v6, v4-mapped addresses / abstract-unix HTTP listener = unknown, query without OPT or with OPT carrying marker-bearing options, DO bit, version, size; upstream reply without OPT or with OPT + options at any additional position; outcome reply / REFUSED / SERVFAIL), each question asked twice (uncached then cached, OPT presence varied); oracles on the client side (OPT iff query had one, empty RDATA, one constant size, no marker octets) and on the upstream side (one lower-cased question, RD=1, exactly one OPT, RDATA empty or exactly the reference ECS encoding, no marker octets); non-trivial = an option on either side or a client address with bits beyond /24 resp. /56")
+	st := vfkit.Stats("TestVfC12Edns", "cases of (ECS on/off, client address via UDP source 127.a.b.c / HTTP client-address header with v4, v6, v4-mapped addresses / abstract-unix HTTP listener = unknown, query without OPT or with OPT carrying marker-bearing options, DO bit, version, size; upstream reply without OPT or with OPT + options at any additional position; outcome reply / REFUSED / SERVFAIL; one UDP reply in three padded to 0-45 octets below the client's size limit of 512 or 1232, so that the owed OPT fits only just or not at all), each question asked twice (uncached then cached, OPT presence varied); oracles on the client side (OPT iff query had one, empty RDATA, one constant size, no marker octets) and on the upstream side (one lower-cased question, RD=1, exactly one OPT, RDATA empty or exactly the reference ECS encoding, no marker octets); non-trivial = an option on either side or a client address with bits beyond /24 resp. /56")
 	defer vfkit.Flush()
 	block := NextIPBlock()
 	var scripts sync.Map
@@ -71,6 +74,16 @@ func TestVfC12Edns(t *testing.T) {
 			m.Bits |= sc.rcode
 			for i := 0; i < sc.extraAr; i++ {
 				m.Ar = append(m.Ar, vfkit.RR{Owner: q.Msg.Q[0].Name, Type: 1, Class: 1, TTL: 300, RData: []vfkit.RDPart{{Raw: []byte{192, 0, 2, byte(i)}}}})
+			}
+			if sc.nearLimit > 0 {
+				// (owner: the root, which no encoder can shorten; the length is measured on the fully compressed form, which
+				// is what ends up in the datagram)
+				pad := vfkit.RR{Owner: vfkit.Name{}, Type: 65280, Class: 1, TTL: 300, RData: []vfkit.RDPart{{Raw: nil}}}
+				m.An = append(m.An, pad)
+				packed, _ := vfkit.Encode(m, vfkit.EncOpts{Compress: func() bool { return true }})
+				if n := sc.nearLimit - sc.delta - len(packed); n > 0 {
+					m.An[len(m.An)-1].RData = []vfkit.RDPart{{Raw: bytes.Repeat([]byte{0x61}, n)}}
+				}
 			}
 			if sc.opt != nil {
 				pos := sc.optPos
@@ -192,6 +205,12 @@ func TestVfC12Edns(t *testing.T) {
 			sc.optPos = rapid.IntRange(0, sc.extraAr).Draw(t, "optPos")
 			upOpts = len(o.RDataWire()) > 0
 		}
+		if via == "udp" && outcome == "reply" && rapid.IntRange(0, 2).Draw(t, "nearLimit") == 0 {
+			// the answer fills the client's UDP size limit up to a few octets: the OPT the client is owed fits only just,
+			// or something has to give way to it
+			sc.nearLimit = rapid.SampledFrom([]int{512, 1232}).Draw(t, "limit")
+			sc.delta = rapid.IntRange(0, 45).Draw(t, "octetsBelowLimit")
+		}
 		scripts.Store(label, sc)
 		defer scripts.Delete(label)
 		qtype := rapid.SampledFrom([]uint16{1, 28, 16}).Draw(t, "qtype")
@@ -202,7 +221,13 @@ func TestVfC12Edns(t *testing.T) {
 				m.Bits = 0 // RD=0: unsupported
 			}
 			if withOPT {
-				o := vfkit.RR{Type: 41, Class: rapid.SampledFrom([]uint16{0, 512, 1232, 4096, 65535}).Draw(t, "cSize"), TTL: rapid.SampledFrom([]uint32{0, 0x8000, 0x00010000, 0x05000000}).Draw(t, "cTTL"),
+				cSizes := []uint16{0, 512, 1232, 4096, 65535}
+				if sc.nearLimit == 512 {
+					cSizes = []uint16{0, 300, 512}
+				} else if sc.nearLimit == 1232 {
+					cSizes = []uint16{1232}
+				}
+				o := vfkit.RR{Type: 41, Class: rapid.SampledFrom(cSizes).Draw(t, "cSize"), TTL: rapid.SampledFrom([]uint32{0, 0x8000, 0x00010000, 0x05000000}).Draw(t, "cTTL"),
 					RData: []vfkit.RDPart{{Raw: c12Options(t, 'C')}}}
 				if len(o.RDataWire()) > 0 {
 					clientOpts = true
@@ -344,6 +369,9 @@ func TestVfC12Edns(t *testing.T) {
 		classes := []string{"via=" + via, "outcome=" + outcome, fmt.Sprintf("ecs=%v", ecs)}
 		if mine == 1 && (outcome == "reply" || outcome == "rcode") {
 			classes = append(classes, "second-ask-from-cache")
+		}
+		if sc.nearLimit > 0 {
+			classes = append(classes, "answer-within-45-octets-of-the-udp-limit")
 		}
 		st.Case(vfkit.Fingerprint(ecs, via, addr.String(), outcome, seq), clientOpts || upOpts || beyond, classes, func() any {
 			return map[string]any{"ecs": ecs, "via": via, "addr": addr.String(), "outcome": outcome, "upstream_queries": mine}
